@@ -10,6 +10,7 @@ def kfLibFlags (c : LibCfg) : List (String × LibCfg) :=
   (if c.stringsCmpOutOfRange then [("strings-cmp-out-of-range", { c with stringsCmpOutOfRange := false })] else []) ++
   (if c.stringsNilPtrPanics then [("strings-nil-ptr-panics", { c with stringsNilPtrPanics := false })] else []) ++
   (if c.stringsNilSrcPanics then [("strings-nil-src-panics", { c with stringsNilSrcPanics := false })] else []) ++
+  (if c.reflectIndexPanics then [("reflect-index-panics", { c with reflectIndexPanics := false })] else []) ++
   (if c.samapCapIsLen then [("samap-cap-is-len", { c with samapCapIsLen := false })] else []) ++
   (if c.samapNilPtrPanics then [("samap-nil-ptr-panics", { c with samapNilPtrPanics := false })] else []) ++
   (if c.staticResetTextLost then [("static-reset-text-lost", { c with staticResetTextLost := false })] else []) ++
@@ -203,7 +204,7 @@ def stringsOpReset (st : St) (head outToks : List String) : String :=
             | .nilPtr, _ => true
             | _, .ok _ _ _ x => x == dropCaps v
             | _, .other t => t == "unsupported"
-          classifyL st (fun _ => resetObsOf (stringsReset f v)) acc impl showCpObs cpIsPanic
+          classifyL st (fun c => resetObsOf (stringsReset c f v)) acc impl showCpObs cpIsPanic
         | none => "skip unparsable-outcome")
      | _, _ => "skip unresolved-input")
   | _ => "skip bad-head"
@@ -301,6 +302,34 @@ def staticOpReset (st : St) (srcToks outToks : List String) : String :=
        classifyL st (fun c => staticResetObs c s) (staticResetAccepts s) (norm impl) showSObs (fun o => o.tag == "panic")
      | none => "skip unparsable-outcome")
   | none => "skip unresolved-input"
+
+/-! ### ReflectInspector -/
+
+/-- GR <tid> <form> <vid> | <path> | <mut> <out> — ReflectInspector.Get on a value of a generated type. There is no
+correctness property for this inspector: the record is judged for panics (C02) and tied to the model. -/
+def opReflectGet (st : St) (head pathToks outToks : List String) : String :=
+  match head with
+  | [_, tid, form, vid] =>
+    (match st.types[tid]?, st.vals[vid]?, parseForm form, parsePath pathToks with
+     | some n, some v, some f, some (p, _) =>
+       (match outToks with
+        | mutF :: out =>
+          if mutF == "1" then "dev-viol read-operation-modified-its-argument" else
+          (match parseGetOut out with
+           | some impl =>
+             if !(f == .val || f == .ptr || f == .ptrptr || f == .nilPtr) then "skip form-not-modelled" else
+             let toG : RGet → Option GetOut := fun r => match r with
+               | .none => some .none | .some s x => some (.some s x) | .panic => some .panic | .unknown => none
+             let keys := p.map (·.text)
+             (match toG (reflectGetM st.lib n (f == .nilPtr) v keys) with
+              | none => "skip unmodelled-map-key"
+              | some _ =>
+                classifyL st (fun c => (toG (reflectGetM c n (f == .nilPtr) v keys)).getD .none)
+                  (fun o => !(o == .panic)) impl showGetOut (fun o => o == .panic))
+           | none => "skip unparsable-outcome")
+        | [] => "skip no-outcome")
+     | _, _, _, _ => "skip unresolved-input")
+  | _ => "skip bad-head"
 
 /-! ### StringAnyMapInspector -/
 
